@@ -10,6 +10,7 @@
 //!                        snippet with a compiler that saw only the successful ones; saved state must be restored
 //!   c20 hostdep 0 DIR -> JSON lines: every system function under SafeSys and under a backend without overrides,
 //!                        on targets that exist on the host and on ones that do not: same outcome required
+//!   c20 items N DIR   -> JSON lines: programs of one item kind each (Gate.citem) with what each mode evaluated and called
 //!   c20 one MODE SRC  -> compile one program (replay / experiments)
 use std::any::Any;
 use std::borrow::Cow;
@@ -1585,6 +1586,141 @@ fn hostdep(scratch: &str) {
     let _ = std::fs::remove_dir_all(&scr_path);
 }
 
+
+// ------------------------------------------------------------------ the items of a compile (Gate.citem)
+
+fn node_list(ex: &mut Export, ns: &[Node]) -> String {
+    let v: Vec<String> = ns.iter().map(|n| ex.node(n)).collect();
+    format!("[{}]", v.join(";"))
+}
+
+/// Programs made of one kind of item each (line / constant binding / function binding / index macro),
+/// compiled in Lazy mode for the model's input and in every mode with the recorder attached for what
+/// the implementation evaluated (root folded, function bodies folded, binding became a constant) and called.
+fn items(n: usize, scratch: &str) {
+    uiua::verif::c12::set_bypass(uiua::verif::c12::PURITY | uiua::verif::c12::PRE_EVAL);
+    let mut rng = Rng::new(seed_from_env() ^ 0x17e5);
+    let scr = scratch.to_string();
+    let snips = snippets(&scr);
+    let mut pg = PGen { fns: vec![] };
+    let mut cases = 0usize;
+    'outer: loop {
+        for (label, void, val) in &snips {
+            let pure1 = format!("⍣({})0 1 2 3", pg.body(&mut rng, 1, 2));
+            let progs: Vec<(&str, String)> = vec![
+                ("line", format!("{val}")),
+                ("line", format!("⊟ 1 {val}")),
+                ("line", format!("{void}")),
+                ("line", pure1.clone()),
+                ("constbind", format!("X ← {val}")),
+                ("constbind", format!("X ← ⊟ 1 {val}")),
+                ("constbind", format!("X ← {pure1}")),
+                ("constbind", "X ← +1 2".to_string()),
+                ("constbind", "X ← 5".to_string()),
+                ("funcbind", format!("F ← ⊟ {val}")),
+                ("funcbind", format!("F ← + {pure1}")),
+                ("funcbind", format!("F ← ({void} +1)")),
+                ("indexmacro", format!("M! ← ^0 {val}\nM!(⊟)")),
+                ("indexmacro", format!("M! ← ^0 ^0\nM!({void})")),
+                ("indexmacro", format!("M! ← ⊟^0 +1 2\nM!({val})")),
+            ];
+            for (kind, body) in progs {
+                let prog = format!("# Experimental!\n{body}\n");
+                let compile = |mode: PreEvalMode| {
+                    let (rec, log) = Rec::new(true);
+                    let r = catch(|| {
+                        let mut c = Compiler::with_backend(rec);
+                        c.pre_eval_mode(mode);
+                        c.print_diagnostics(false);
+                        let ok = c.load_str(&prog).is_ok();
+                        (ok, c.finish())
+                    });
+                    (r, methods_of(&take_log(&log)))
+                };
+                let (Ok((lazy_ok, lazy)), _) = compile(PreEvalMode::Lazy) else { continue };
+                if !lazy_ok {
+                    continue;
+                }
+                let mut ex = Export::new();
+                let funcs: Vec<String> = lazy.functions.iter().map(|f| ex.node(f)).collect();
+                let mut fext = vec![false; lazy.functions.len()];
+                let mut binds = Vec::new();
+                for b in lazy.bindings.iter() {
+                    binds.push(match &b.kind {
+                        BindingKind::Const(v) => format!("(BConst {})", v.is_some()),
+                        BindingKind::Func(f) => {
+                            let i = uiua::verif::function_index(f);
+                            if b.meta.external && i < fext.len() {
+                                fext[i] = true;
+                            }
+                            format!("(BFunc {i})")
+                        }
+                        _ => "BOther".to_string(),
+                    });
+                }
+                if has_un_only_custom(&lazy.root) || lazy.functions.iter().any(has_un_only_custom) {
+                    continue;
+                }
+                let root = node_list(&mut ex, lazy.root.as_slice());
+                // the unevaluated words of a constant binding: the root is words ++ [BindGlobal]
+                let constn: Option<String> = match lazy.root.as_slice() {
+                    [words @ .., Node::BindGlobal { .. }] if !words.iter().any(|w| matches!(w, Node::BindGlobal { .. })) => {
+                        Some(node_list(&mut ex, words))
+                    }
+                    _ => None,
+                };
+                let lazy_const = lazy.bindings.iter().any(|b| matches!(&b.kind, BindingKind::Const(Some(_))));
+                let mut labels = BTreeMap::new();
+                let mut mlabels = Vec::new();
+                labels_in(&lazy.root, &mut labels);
+                mod_labels(&lazy.root, &mut mlabels);
+                for f in lazy.functions.iter() {
+                    labels_in(f, &mut labels);
+                    mod_labels(f, &mut mlabels);
+                }
+                let lazy_root = format!("{:?}", lazy.root);
+                let lazy_funcs: Vec<String> = lazy.functions.iter().map(|f| format!("{f:?}")).collect();
+                let mut modes_out = Vec::new();
+                for (mode, mname) in modes() {
+                    let (r, called) = compile(mode);
+                    let Ok((_ok, asm)) = r else { continue };
+                    let root_folded = format!("{:?}", asm.root) != lazy_root;
+                    let fs: Vec<String> = asm.functions.iter().map(|f| format!("{f:?}")).collect();
+                    let funcs_folded = fs != lazy_funcs;
+                    let is_const = asm.bindings.iter().any(|b| matches!(&b.kind, BindingKind::Const(Some(_))));
+                    modes_out.push(format!(
+                        "\"{mname}\":{{\"root_folded\":{root_folded},\"funcs_folded\":{funcs_folded},\"const\":{is_const},\"called\":{}}}",
+                        jlist(called)
+                    ));
+                }
+                let labs: Vec<String> = labels
+                    .iter()
+                    .map(|(id, (name, p, sys, sr))| format!("{{\"id\":{id},\"name\":{},\"pur\":\"{}\",\"sys\":{sys},\"sendrecv\":{sr}}}", jstr(name), pur(*p)))
+                    .collect();
+                let mlabs: Vec<String> = mlabels.iter().map(|(t, p)| format!("{{\"term\":{},\"pur\":\"{}\"}}", jstr(t), pur(*p))).collect();
+                println!(
+                    "{{\"k\":\"item\",\"kind\":\"{kind}\",\"snippet\":{},\"program\":{},\"funcs\":{},\"fext\":{},\"binds\":{},\"labels\":[{}],\"mlabels\":[{}],\"root\":{},\"constn\":{},\"lazy_const\":{lazy_const},\"modes\":{{{}}}}}",
+                    jstr(label),
+                    jstr(&prog),
+                    jlist(funcs),
+                    jlist(fext.iter().map(|b| b.to_string())),
+                    jlist(binds),
+                    labs.join(","),
+                    mlabs.join(","),
+                    jstr(&root),
+                    constn.map(|c| jstr(&c)).unwrap_or("null".into()),
+                    modes_out.join(",")
+                );
+                cases += 1;
+                if cases >= n {
+                    break 'outer;
+                }
+            }
+        }
+    }
+    println!("{{\"k\":\"summary\",\"cases\":{cases}}}");
+}
+
 // ------------------------------------------------------------------ the gate functions on exported trees
 
 fn collect_nodes<'a>(n: &'a Node, out: &mut Vec<&'a Node>, budget: &mut usize) {
@@ -1793,6 +1929,7 @@ fn main() {
         "session" => sessions(n, &scratch),
         "twocomp" => two_compilers(&scratch),
         "hostdep" => hostdep(&scratch),
+        "items" => items(n, &scratch),
         "leak-demo" => {
             // consequence of the comptime_depth leak: after N rejected code-macro snippets a valid macro is refused
             let (mut comp, _log) = new_session_compiler(PreEvalMode::Normal);
